@@ -697,6 +697,10 @@ class LTE:
         * :math:`M_i` is the molar mass of species :math:`i`,
           in :math:`\text{kg.mol}^{-1}`.
         """
+        # Reference energies and lowerings are cached by the composition
+        # calculation: make sure they belong to the current state.
+        self.calculate_composition()
+
         internal_energies = [
             sp.internal_energy(self.T, dE)
             for sp, dE in zip(self.species, self.__dE)
